@@ -84,7 +84,7 @@ def gen_sweep(rng, k0, tier):
 
 
 def check(rep, tier, seed):
-    rep.assumptions = ["the application follows the documented loop: buffer(n); wrote(n) with the same n > 0; blockout until it returns 0; one wrote(0) at the end",
+    rep.assumptions = ["the application follows the documented loop: buffer(n); wrote(n) with the same n > 0; blockout until it returns 0; one wrote(0) at the end (every fifth case: wrote(-1), which lib/block.c documents as equivalent)",
                        "granule positions and counts are modelled as unbounded integers (no 2^63 wrap)"]
     rep.coverage["trusted_base"] = TRUSTED
     pr = common.prove("C04", clean=(tier == "thorough"))
